@@ -191,7 +191,9 @@ Scope == cur.params \o cur.locals            \* seq of [name, ref, ty, bind]
 \* (the procedure's OWN name is excluded: the pinned server resolves the name in a procedure's header through
 \*  the local table as well, an observed defect outside the listed properties' core, see DESIGN 12.4)
 \* likewise a local may carry the name of a declared type; that type can then not be named in later local declarations
-ShadowNames == IF Shadowing THEN {plan[d].name : d \in {e \in DOMAIN plan : ~plan[e].dup}} \ {cur.proc} ELSE {}
+\* and the name of a predefined procedure (which can then not be called here either)
+ShadowBuiltins == {"exit", "time"}
+ShadowNames == IF Shadowing THEN ({plan[d].name : d \in {e \in DOMAIN plan : ~plan[e].dup}} \ {cur.proc}) \cup ShadowBuiltins ELSE {}
 ScopeNames == {Scope[j].name : j \in DOMAIN Scope}
 Usable == {j \in DOMAIN Scope : Scope[j].ty # UNK}
 \* variables that yield type ty after k index steps
